@@ -56,6 +56,13 @@ def _exact_cases():
             sc += [("send", 1 + i, "ok", "idem") for i in range(n_long)] + [("send", 20 + i, "ok", "conn") for i in range(n_short)]
             sc += [("adv", gap), ("net", "accept"), ("adv", 24)]
             out.append(("outage", sc))
+    # two sessions: messages held when the client is closed are not held (and not transmitted) in the next session - the buffer of a
+    # re-opened client is empty, so ten new messages are accepted and exactly those are flushed
+    for held in (1, 5, 10):
+        for again in (1, 10, 11):
+            sc = [("net", "refuse"), ("open",), ("adv", 1)] + [("send", i, "ok", "idem") for i in range(1, held + 1)]
+            sc += [("close",), ("adv", 4), ("open",), ("adv", 1)] + [("send", 20 + i, "ok", "idem") for i in range(again)] + [("net", "accept"), ("adv", 24)]
+            out.append(("outage", sc))
     return out
 
 
